@@ -59,6 +59,13 @@ def sh(cmd, cwd=None, env=None, timeout=None, check=True, capture=True):
     return p
 
 
+def killed_from_outside(rc):
+    """SIGKILL is sent by the kernel's out-of-memory killer or an operator, never by the code under test (a panic, abort or stack
+    overflow ends with SIGABRT / SIGSEGV / a status of its own): no verdict can be drawn from it"""
+    if rc in (-9, 137):
+        raise ToolError("a child process was killed from outside (status %d: out of memory or operator); no verdict" % rc)
+
+
 _built = False
 
 
@@ -121,6 +128,7 @@ def run_cases(inp, out, layout_seed=None, timeout=1800):
             p = subprocess.run(cmd, stdout=subprocess.PIPE, stderr=devnull, text=True, timeout=timeout)
         except subprocess.TimeoutExpired:
             return ("timeout", None)
+    killed_from_outside(p.returncode)
     if p.returncode != 0:
         return ("crash", p.returncode)
     return ("ok", 0)
@@ -158,7 +166,37 @@ def parse_tlc_output(text):
     return recs, stats
 
 
-def tlc(module, cfg, env, name, timeout=3600, nworkers=None, extra=None, coverage=False, mem="4g", kill_after=None):
+def _stream(cmd, env, timeout, sink):
+    import threading
+    full = dict(os.environ)
+    full.update(env)
+    files = {tag: open(path, "w", encoding="utf-8") for tag, path in sink.items()}
+    counts = {tag: 0 for tag in sink}
+    proc = subprocess.Popen(cmd, cwd=SPEC, env=full, stdout=subprocess.PIPE, stderr=subprocess.STDOUT, text=True, encoding="utf-8", errors="replace")
+    timer = threading.Timer(timeout, proc.kill)
+    timer.start()
+    other = []
+    try:
+        for line in proc.stdout:
+            line = line.rstrip("\n")
+            m = RESULT_RE.match(line)
+            if m and m.group(1) in files:
+                try:
+                    files[m.group(1)].write(json.loads(m.group(2)) + "\n")
+                    counts[m.group(1)] += 1
+                except Exception:
+                    other.append("Error: unparsable record: " + line[:200])
+            elif len(other) < 200000:
+                other.append(line)
+        rc = proc.wait()
+    finally:
+        timer.cancel()
+        for f in files.values():
+            f.close()
+    return "\n".join(other), rc, counts
+
+
+def tlc(module, cfg, env, name, timeout=3600, nworkers=None, extra=None, coverage=False, mem="4g", kill_after=None, sink=None):
     """runs TLC on spec/<module>.tla with spec/<cfg>; returns (records, stats, raw text).
     kill_after: seconds after which TLC is stopped on purpose (simulation mode); then exit status 124 is expected"""
     meta = os.path.join(WORK, "tlc", name)
@@ -179,9 +217,19 @@ def tlc(module, cfg, env, name, timeout=3600, nworkers=None, extra=None, coverag
     if kill_after:
         cmd = ["timeout", str(int(kill_after))] + cmd
     t0 = time.time()
-    p = sh(cmd, cwd=SPEC, env=e, timeout=timeout, check=False)
-    text = p.stdout or ""
-    recs, stats = parse_tlc_output(text)
+    if sink:
+        # very large outputs: records of the given tags go straight to ndjson files (one JSON text per line), nothing is kept
+        text, rc, counts = _stream(cmd, e, timeout, sink)
+        recs, stats = parse_tlc_output(text)
+        stats["sink_counts"] = counts
+
+        class _P:
+            returncode = rc
+        p = _P()
+    else:
+        p = sh(cmd, cwd=SPEC, env=e, timeout=timeout, check=False)
+        text = p.stdout or ""
+        recs, stats = parse_tlc_output(text)
     stats["wall_s"] = round(time.time() - t0, 2)
     stats["exit"] = p.returncode
     if kill_after and p.returncode == 124 and not stats["errors"]:
